@@ -1,4 +1,4 @@
-import GoatProofs.Lemmas.C02Verify
+import GoatProofs.Lemmas.C02JsonTop
 import GoatProofs.C01
 import GoatProofs.Lemmas.C02Time
 /-
@@ -16,65 +16,6 @@ Oracle laws are explicit hypotheses (each is exercised by the harness on every g
   * the key finder returns the verification key for the decoded header.
 -/
 namespace Model.JWS
-
-/-- base64url law: decoding inverts encoding, and the encoding never contains '.' -/
-def B64Law (o : Oracle) : Prop :=
-  ∀ x, ∃ e, o ⟨"b64url.enc", [.bytes x]⟩ = .bytes e ∧ o ⟨"b64url.dec", [.bytes e]⟩ = .bytes x ∧ dot ∉ e
-
-/-- header codec law for one header: what `Sign` marshals decodes again, to `hp'` -/
-def HeaderRoundTrip (o : Oracle) (hp hp' : Header) : Prop :=
-  ∀ W hj, (encodeHeader hp).run o = .ok W → o ⟨"c01.json.marshalB", [W]⟩ = .bytes hj →
-    (unmarshalHeader hj).run o = .ok hp'
-
-/-- what a successful `msg.Sign(protected, header, key)` produced: the protected header is
-    marshalled once, base64url-encoded once, these exact bytes are signed together with the stored
-    payload text, and the same bytes are stored for re-emission. -/
-theorem sign_ok (o : Oracle) (msg msg1 : Message) (hp : Header) (hdr : Option Header)
-    (sk : Sig.SigningKey) (h : (sign msg (some hp) hdr sk).run o = .ok msg1) :
-    msg.nb64 = hp.nb64 ∧ ∃ W hj rawB sg b64sig,
-      (encodeHeader hp).run o = .ok W ∧ o ⟨"c01.json.marshalB", [W]⟩ = .bytes hj ∧
-      o ⟨"b64url.enc", [.bytes hj]⟩ = .bytes rawB ∧
-      (Sig.signKey sk (rawB ++ dot :: msg.payload)).run o = .ok sg ∧
-      o ⟨"b64url.enc", [.bytes sg]⟩ = .bytes b64sig ∧
-      msg1 = { msg with signatures := msg.signatures ++
-        [{ prot := some hp, header := hdr, rawProtected := rawB, b64signature := b64sig, signature := sg }] } := by
-  unfold sign at h
-  simp only at h
-  by_cases hnb : (msg.nb64 != hp.nb64) = true
-  · simp [hnb] at h
-  · simp only [hnb, Bool.false_eq_true, if_false] at h
-    have hnb' : msg.nb64 = hp.nb64 := by
-      cases hx : msg.nb64 <;> cases hy : hp.nb64 <;> simp [hx, hy] at hnb <;> rfl
-    obtain ⟨W, hW, h⟩ := PO.run_bind_eq_ok o _ _ _ h
-    obtain ⟨hj, hhj, h⟩ := PO.run_bind_eq_ok o _ _ _ h
-    obtain ⟨rawB, hrawB, h⟩ := PO.run_bind_eq_ok o _ _ _ h
-    obtain ⟨sg, hsg, h⟩ := PO.run_bind_eq_ok o _ _ _ h
-    obtain ⟨b64sig, hb64sig, h⟩ := PO.run_bind_eq_ok o _ _ _ h
-    simp only [PO.run_pure] at h
-    injection h with h
-    refine ⟨hnb', W, hj, rawB, sg, b64sig, hW, ?_, (b64Encode_ok o _ _).1 hrawB, hsg,
-      (b64Encode_ok o _ _).1 hb64sig, h.symm⟩
-    simp only [jsonMarshalB, PO.run_bind, PO.run_query] at hhj
-    cases hq : o ⟨"c01.json.marshalB", [W]⟩ <;> simp [hq] at hhj
-    rw [hhj]
-
-/-- forward direction of the compact parser on well-formed segments -/
-theorem parseCompact_of_segments (o : Oracle) (h p sg hb sig : Bytes) (hdr : Header)
-    (n1 : dot ∉ h) (n2 : dot ∉ p)
-    (h1 : o ⟨"b64url.dec", [.bytes h]⟩ = .bytes hb) (h2 : (unmarshalHeader hb).run o = .ok hdr)
-    (h3 : o ⟨"b64url.dec", [.bytes sg]⟩ = .bytes sig) :
-    (parseCompact (h ++ dot :: (p ++ dot :: sg))).run o = .ok
-      { payload := p, nb64 := hdr.nb64,
-        signatures := [{ prot := some hdr, rawProtected := h, b64signature := sg, signature := sig }] } := by
-  unfold parseCompact
-  rw [splitDot_append h _ n1]
-  simp only
-  rw [splitDot_append p _ n2]
-  simp only
-  rw [PO.run_bind_ok o _ _ hb ((b64Decode_ok o h hb).2 h1)]
-  rw [PO.run_bind_ok o _ _ hdr h2]
-  rw [PO.run_bind_ok o _ _ sig ((b64Decode_ok o sg sig).2 h3)]
-  rfl
 
 /-- **sign_verify_roundtrip (compact, b64=false, detached).**  For every payload `pl`, protected
     header `hp`, signing key `sk` and verification key `vk`: build the message (`NewMessage`, or
@@ -184,17 +125,12 @@ theorem sign_verify_roundtrip_compact (o : Oracle) (cfg : Cfg) (pl : Bytes) (raw
       have := verifyLoop_single o cfg msg0.payload msg0.payload s (good _ rfl)
       simpa [s, hp0] using this
 
-/-- **sign_verify_roundtrip, JSON forms (flattened, general with n signers), loop part.**
-    Any message `m` that carries the stored payload text of the signed message and, among its
-    signature entries, one good entry (e.g. the one stemming from signer `j` once re-parsed), and no
+/-- the verification-loop part of the JSON round trip: any message `m` that carries the stored
+    payload text of the signed message and, among its signature entries, one good entry, and no
     entry on which the finder/`Verify` panics, verifies — with the FIRST entry that verifies — and
-    returns the original payload.
-    PARTIAL: the full statement composes this with `parseJSON (marshalJSON msg1) = m` where `m` has
-    the raw segments of `msg1` and the decoded headers; that step needs the JSON law
-    `json.decodeMap (json.Marshal W) = W` on the whole message object with strings for the byte
-    leaves (valid UTF-8 payload when b64=false) and is covered by the correspondence harness only
-    (full grid: flattened, general 1–4 signers). -/
-theorem verify_of_signed_partial (o : Oracle) (cfg : Cfg) (m : Message) (pl : Bytes)
+    returns the original payload.  (Composed with `parseJSON_flat` / `parseJSON_general` in
+    `sign_verify_roundtrip_json` below.) -/
+theorem verify_of_signed (o : Oracle) (cfg : Cfg) (m : Message) (pl : Bytes)
     (hconf : cfg.configured = true)
     (hpl : if m.nb64 then m.payload = pl else o ⟨"b64url.dec", [.bytes m.payload]⟩ = .bytes pl)
     (hgood : ∃ s ∈ m.signatures, Good o cfg s m.payload)
@@ -212,9 +148,199 @@ theorem verify_of_signed_partial (o : Oracle) (cfg : Cfg) (m : Message) (pl : By
     obtain ⟨s, hs, hr, _⟩ := verifyLoop_of_good o cfg m.payload m.payload m.signatures hgood hnp
     exact ⟨s, hs, by rw [← hpl]; exact hr⟩
 
+/-! ### JSON serialisations: flattened (one signer) and general (n signers of any header shapes) -/
+
+/-- what `NewMessage` / `NewRawMessage` store -/
+theorem fresh_message (o : Oracle) (hb64 : B64Law o) (pl : Bytes) (raw : Bool) (msg0 : Message)
+    (h0 : (if raw then pure (newRawMessage pl) else newMessage pl : PO Message).run o = .ok msg0) :
+    msg0.signatures = [] ∧ msg0.nb64 = raw ∧
+      (if msg0.nb64 then msg0.payload = pl else o ⟨"b64url.dec", [.bytes msg0.payload]⟩ = .bytes pl) := by
+  cases raw
+  · simp only [Bool.false_eq_true, if_false] at h0
+    unfold newMessage at h0
+    obtain ⟨p, hp1, h0⟩ := PO.run_bind_eq_ok o _ _ _ h0
+    simp only [PO.run_pure] at h0
+    injection h0 with h0
+    subst h0
+    have he := (b64Encode_ok o _ _).1 hp1
+    obtain ⟨e, e1, e2, _⟩ := hb64 pl
+    rw [he] at e1
+    injection e1 with e1
+    subst e1
+    exact ⟨rfl, rfl, by simpa using e2⟩
+  · simp only [if_true, PO.run_pure] at h0
+    injection h0 with h0
+    subst h0
+    exact ⟨rfl, rfl, by simp [newRawMessage]⟩
+
+/-- what a signer must satisfy for its entry to verify after the round trip: its algorithm — read
+    from the decoded headers, protected first, else unprotected (every header placement) — is named
+    and allowed, the key finder answers the decoded header pair with the verification key, and that
+    key accepts what the signing key signs (the LAW of the signature primitive, `SignVerifyPair`;
+    Lemmas/C02Sig.lean derives it per algorithm; HMAC needs no law beyond determinism of the oracle) -/
+structure SignerGood (o : Oracle) (cfg : Cfg) (s : Signer) : Prop where
+  named : ({ prot := some s.hp', header := s.hdr' } : Signature).alg ≠ ""
+  allowed : cfg.allows ({ prot := some s.hp', header := s.hdr' } : Signature).alg = true
+  finder : ∀ e : Signature, e.prot = some s.hp' → e.header = s.hdr' →
+    Sig.signingKeyOfHandle (o (findKeyQuery e)) = some (.ok s.vk)
+  pair : Sig.SignVerifyPair o s.sk s.vk
+
+theorem back_alg (s : Signer) (e : Signature) :
+    (back s e).alg = ({ prot := some s.hp', header := s.hdr' } : Signature).alg := rfl
+
+theorem good_of_signed (o : Oracle) (cfg : Cfg) (p : Bytes) (nb : Bool) (s : Signer) (e : Signature)
+    (hs : Signed o p nb s e) (hg : SignerGood o cfg s) : Good o cfg (back s e) p :=
+  ⟨by rw [back_alg]; exact hg.named, by rw [back_alg]; exact hg.allowed, s.vk, hg.finder _ rfl rfl,
+    hg.pair _ _ hs.signed⟩
+
+theorem backs_of_mem (o : Oracle) (p : Bytes) (nb : Bool) : ∀ (signers : List Signer) (es : List Signature),
+    Zip2 (Signed o p nb) signers es → ∀ s ∈ signers, ∃ e, Signed o p nb s e ∧ back s e ∈ backs signers es := by
+  intro signers es hz
+  induction hz with
+  | nil => intro s hs; cases hs
+  | cons hr _ ih =>
+    intro s hs
+    cases hs with
+    | head => exact ⟨_, hr, by simp [backs]⟩
+    | tail _ hs' =>
+      obtain ⟨e, he, hm⟩ := ih s hs'
+      exact ⟨e, he, by simp [backs, hm]⟩
+
+theorem mem_backs (o : Oracle) (p : Bytes) (nb : Bool) : ∀ (signers : List Signer) (es : List Signature),
+    Zip2 (Signed o p nb) signers es → ∀ x ∈ backs signers es, ∃ s ∈ signers, ∃ e, x = back s e := by
+  intro signers es hz
+  induction hz with
+  | nil => intro x hx; simp [backs] at hx
+  | cons _ _ ih =>
+    intro x hx
+    simp only [backs, List.mem_cons] at hx
+    rcases hx with hx | hx
+    · exact ⟨_, List.mem_cons_self .., _, hx⟩
+    · obtain ⟨s, hs, e, he⟩ := ih x hx
+      exact ⟨s, List.mem_cons_of_mem _ hs, e, he⟩
+
+/-- `Parse (MarshalJSON msgN)` for a freshly signed message: the stored payload text, the message
+    flag, and every entry with its raw segments and the decoded headers, in order -/
+theorem parse_marshal_signed (o : Oracle) (hb64 : B64Law o) (signers : List Signer)
+    (msg0 msgN : Message) (d : Bytes)
+    (hfresh : msg0.signatures = [])
+    (h1 : (signAll msg0 signers).run o = .ok msgN)
+    (h2 : (marshalJSON msgN).run o = .ok d)
+    (hne : signers ≠ [])
+    (hjson : ∀ W, (msgObject msgN).run o = .ok W →
+      ∃ W', StrView W W' ∧ o ⟨"json.decodeMap", [.bytes d]⟩ = W')
+    (hl : ∀ s ∈ signers, SignerLaws o s) :
+    Zip2 (Signed o msg0.payload msg0.nb64) signers msgN.signatures ∧
+    (parseJSON d).run o = .ok
+      { signatures := backs signers msgN.signatures, payload := msg0.payload, nb64 := msg0.nb64 } := by
+  obtain ⟨hpay, hnb, es, hes, hz⟩ := signAll_ok o signers msg0 msgN h1
+  rw [hfresh, List.nil_append] at hes
+  -- the object that was marshalled
+  have hW : ∃ W, (msgObject msgN).run o = .ok W := by
+    unfold marshalJSON at h2
+    by_cases hu : (msgN.nb64 && !validUTF8 msgN.payload) = true
+    · simp [hu] at h2
+    · simp only [hu, Bool.false_eq_true, if_false] at h2
+      obtain ⟨W, hW, _⟩ := PO.run_bind_eq_ok o _ _ _ h2
+      exact ⟨W, hW⟩
+  obtain ⟨W, hW⟩ := hW
+  obtain ⟨W', hv, hd⟩ := hjson W hW
+  rw [hes]
+  refine ⟨hz, ?_⟩
+  match signers, es, hz, hne, hl, hes with
+  | [s], [e], hz, _, hl, hes =>
+    cases hz with
+    | cons hs _ =>
+      obtain ⟨ps, hps, hr⟩ := parseJSON_flat o hb64 msg0.payload msg0.nb64 s e msgN W W' d hes hpay hs
+        (hl s (List.mem_cons_self ..)) hW hv hd
+      rw [hr, hps]; rfl
+  | s1 :: s2 :: rest, e1 :: e2 :: es', hz, hne, hl, hes =>
+    obtain ⟨ps, hps, hr⟩ := parseJSON_general o hb64 msg0.payload msg0.nb64 _ _ msgN W W' d hes hpay
+      (by intro e h; cases h) hz hne hl hW hv hd
+    rw [hr, hps]
+  | [_], _ :: _ :: _, hz, _, _, _ => cases hz with | cons _ h => cases h
+  | _ :: _ :: _, [_], hz, _, _, _ => cases hz with | cons _ h => cases h
+  | [], _, _, hne, _, _ => exact absurd rfl hne
+  | _ :: _, [], hz, _, _, _ => cases hz
+
+/-- **sign_verify_roundtrip (JSON: flattened and general, n signers of any header shapes, b64 on/off).**
+    `NewMessage|NewRawMessage`, `Sign` for every signer, `MarshalJSON`, `Parse`, `Verify`: the original
+    payload comes back together with the decoded protected and unprotected header of one of the signers —
+    the first one whose entry verifies.  Hypotheses, all explicit:
+    * `hb64`, `hjson`, `hl`: the base64url law, the JSON law on the marshalled message object
+      (`StrView`: byte leaves are UTF-8 strings — for b64=false this is where a non-UTF-8 payload is
+      excluded; `marshalJSON_raw_utf8` shows the serialiser refuses it), the header codec laws;
+    * `hgood`: some signer is `SignerGood` (algorithm named in either header and allowed; the finder
+      returns its verification key; law of the signature primitive);
+    * `hnp`: on no entry does the caller's finder / the key panic (nil key, malformed public key). -/
+theorem sign_verify_roundtrip_json (o : Oracle) (cfg : Cfg) (pl : Bytes) (raw : Bool)
+    (signers : List Signer) (msg0 msgN : Message) (d : Bytes)
+    (hb64 : B64Law o)
+    (h0 : (if raw then pure (newRawMessage pl) else newMessage pl : PO Message).run o = .ok msg0)
+    (h1 : (signAll msg0 signers).run o = .ok msgN)
+    (h2 : (marshalJSON msgN).run o = .ok d)
+    (hjson : ∀ W, (msgObject msgN).run o = .ok W →
+      ∃ W', StrView W W' ∧ o ⟨"json.decodeMap", [.bytes d]⟩ = W')
+    (hl : ∀ s ∈ signers, SignerLaws o s)
+    (hconf : cfg.configured = true)
+    (hgood : ∃ s ∈ signers, SignerGood o cfg s)
+    (hnp : ∀ x ∈ backs signers msgN.signatures, ∀ site, (trySig cfg msg0.payload x).run o ≠ .panic site) :
+    ∃ s ∈ signers, (parseJSON d >>= verify cfg).run o = .ok (some s.hp', s.hdr', pl) := by
+  obtain ⟨hfresh, _, hpl⟩ := fresh_message o hb64 pl raw msg0 h0
+  have hne : signers ≠ [] := by
+    obtain ⟨s, hs, _⟩ := hgood
+    intro h; rw [h] at hs; cases hs
+  obtain ⟨hz, hparse⟩ := parse_marshal_signed o hb64 signers msg0 msgN d hfresh h1 h2 hne hjson hl
+  rw [PO.run_bind_ok o _ _ _ hparse]
+  obtain ⟨sg, hsg, hgd⟩ := hgood
+  obtain ⟨e, he, hmem⟩ := backs_of_mem o _ _ signers _ hz sg hsg
+  obtain ⟨x, hx, hr⟩ := verify_of_signed o cfg
+    { signatures := backs signers msgN.signatures, payload := msg0.payload, nb64 := msg0.nb64 } pl hconf hpl
+    ⟨back sg e, hmem, good_of_signed o cfg _ _ sg e he hgd⟩ hnp
+  obtain ⟨s, hs, e', rfl⟩ := mem_backs o _ _ signers _ hz x hx
+  exact ⟨s, hs, hr⟩
+
+/-- … and when the FIRST signer is good, it is exactly its headers that come back (this covers the
+    flattened form, and the general form with a finder that knows every signer's key) -/
+theorem sign_verify_roundtrip_json_first (o : Oracle) (cfg : Cfg) (pl : Bytes) (raw : Bool)
+    (s0 : Signer) (rest : List Signer) (msg0 msgN : Message) (d : Bytes)
+    (hb64 : B64Law o)
+    (h0 : (if raw then pure (newRawMessage pl) else newMessage pl : PO Message).run o = .ok msg0)
+    (h1 : (signAll msg0 (s0 :: rest)).run o = .ok msgN)
+    (h2 : (marshalJSON msgN).run o = .ok d)
+    (hjson : ∀ W, (msgObject msgN).run o = .ok W →
+      ∃ W', StrView W W' ∧ o ⟨"json.decodeMap", [.bytes d]⟩ = W')
+    (hl : ∀ s ∈ s0 :: rest, SignerLaws o s)
+    (hconf : cfg.configured = true)
+    (hgood : SignerGood o cfg s0) :
+    (parseJSON d >>= verify cfg).run o = .ok (some s0.hp', s0.hdr', pl) := by
+  obtain ⟨hfresh, _, hpl⟩ := fresh_message o hb64 pl raw msg0 h0
+  obtain ⟨hz, hparse⟩ := parse_marshal_signed o hb64 (s0 :: rest) msg0 msgN d hfresh h1 h2
+    (by intro h; cases h) hjson hl
+  rw [PO.run_bind_ok o _ _ _ hparse]
+  generalize msgN.signatures = sigsN at hz
+  cases hz with
+  | @cons _ e0 _ es hs _ =>
+    have hg := good_of_signed o cfg _ _ s0 e0 hs hgood
+    have hloop : ∀ rc, (verifyLoop cfg rc msg0.payload (back s0 e0 :: backs rest es)).run o =
+        .ok (some s0.hp', s0.hdr', rc) := by
+      intro rc
+      unfold verifyLoop
+      rw [PO.run_bind, trySig_of_good o cfg _ _ hg]
+      simp [back]
+    unfold verify
+    simp only [hconf, Bool.not_true, Bool.false_eq_true, if_false, backs]
+    cases hn : msg0.nb64
+    · simp only [hn, Bool.false_eq_true, if_false] at hpl
+      simp only [Bool.not_false, if_true, PO.run_bind, b64Dec?_run, hpl]
+      exact hloop pl
+    · simp only [hn, if_true] at hpl
+      simp only [Bool.not_true, Bool.false_eq_true, if_false]
+      rw [← hpl]; exact hloop _
+
 /-- the entry `Sign` appends is good for the stored payload text once its protected header is
     replaced by the decoded one (what every parser of this library stores): the bridge between
-    `sign_ok` and `verify_of_signed_partial` -/
+    `sign_ok` and `verify_of_signed` -/
 theorem signed_entry_good (o : Oracle) (cfg : Cfg) (msg msg1 : Message) (hp hp' : Header)
     (hdr hdr' : Option Header) (sk vk : Sig.SigningKey)
     (h1 : (sign msg (some hp) hdr sk).run o = .ok msg1)
@@ -419,5 +545,30 @@ example : (match (do
     | _ => false) = true := by decide
 
 example : SignVerifyPair toyO toySK toySK := hs_pair toyO .sha256 [7] true true
+
+/-- a toy JSON library for the flattened form: the header marshals to `01`, the message object to
+    `03`; decoding `03` gives the string view of the object `MarshalJSON` built -/
+def toyJ : Oracle := fun q =>
+  if q.name == "c01.json.marshalB" then
+    (match q.args with
+     | [.obj kvs] => if (Wire.lookup "payload" kvs).isSome then .bytes [3] else .bytes [1]
+     | _ => .none)
+  else if q.name == "json.decodeMap" then
+    (match q.args with
+     | [.bytes [3]] => .obj [("payload", .str (String.ofList [Char.ofNat 5, Char.ofNat 6])),
+                             ("protected", .str (String.ofList [Char.ofNat 1])),
+                             ("signature", .str (String.ofList [Char.ofNat 9, Char.ofNat 9]))]
+     | _ => .obj [("alg", .str "HS256")])
+  else toyO q
+
+/-- sign → MarshalJSON (flattened) → Parse → Verify returns the payload `05 06` -/
+example : (match (do
+      let m0 ← newMessage [5, 6]
+      let m1 ← signAll m0 [{ hp := toyHdr, hdr := none, sk := toySK, hp' := toyHdr, hdr' := none, vk := toySK }]
+      let d ← marshalJSON m1
+      let m ← parseJSON d
+      verify { allowed := ["HS256"] } m : PO _).run toyJ with
+    | .ok (some h, none, p) => h.alg == "HS256" && p == [5, 6]
+    | _ => false) = true := by decide
 
 end C02.Example
